@@ -536,6 +536,10 @@ class Recorder(object):
             rec["phase"] = call_phase()
         ctx.calls.append(rec)
         ctx.iters_since_eval = 0
+        if ctx.extra.get("synth_pairs"):
+            # run without logging and without averaging, opted in by the check: evaluation k is point k (what C02 establishes for
+            # logged runs), so the history checks can name points although no log line exists
+            ctx.evalpairs.append((k, k, None))
         kind = self.faults.get(k)
         if kind is None and self.pfrom is not None and k >= self.pfrom:
             kind = self.pkind
